@@ -1369,4 +1369,161 @@ mutual
           simp [expect, addAp_append, pure, Except.pure]
 end
 
+
+/-! ### structure and keys are never touched -/
+
+mutual
+  theorem specTree_shape (c : Cfg) (re : Oracle) : ∀ (t : JTree) (path : List Bytes) (t' : JTree)
+      (ap : List (Nat × MaskCfg)), specTree c re path t = some (t', ap) → sameShape t t' = true
+    | .str s, path, t', ap, h => by
+      simp only [specTree] at h
+      split at h <;> simp at h <;> (obtain ⟨rfl, _⟩ := h; simp [sameShape])
+    | .num s, path, t', ap, h => by
+      simp only [specTree] at h
+      split at h <;> simp at h <;> (obtain ⟨rfl, _⟩ := h; simp [sameShape])
+    | .obj kvs, path, t', ap, h => by
+      simp only [specTree] at h
+      split at h
+      · simp at h
+      · rename_i kvs' ap' hk
+        simp at h; obtain ⟨rfl, _⟩ := h
+        simp [sameShape, specKVs_shape c re kvs path kvs' ap' hk]
+    | .arr xs, path, t', ap, h => by
+      simp only [specTree] at h
+      split at h
+      · simp at h
+      · rename_i xs' ap' hk
+        simp at h; obtain ⟨rfl, _⟩ := h
+        simp [sameShape, specArr_shape c re xs 0 path xs' ap' hk]
+    | .null, _, t', ap, h => by simp [specTree] at h; obtain ⟨rfl, _⟩ := h; simp [sameShape]
+    | .bool b, _, t', ap, h => by simp [specTree] at h; obtain ⟨rfl, _⟩ := h; simp [sameShape]
+  theorem specKVs_shape (c : Cfg) (re : Oracle) : ∀ (kvs : List (Bytes × JTree)) (path : List Bytes)
+      (kvs' : List (Bytes × JTree)) (ap : List (Nat × MaskCfg)),
+      specKVs c re path kvs = some (kvs', ap) → sameShapeKVs kvs kvs' = true
+    | [], _, kvs', ap, h => by simp [specKVs] at h; obtain ⟨rfl, _⟩ := h; simp [sameShapeKVs]
+    | (k, v) :: rest, path, kvs', ap, h => by
+      simp only [specKVs] at h
+      split at h
+      · rename_i v' a1 rest' a2 h1 h2
+        simp at h; obtain ⟨rfl, _⟩ := h
+        simp [sameShapeKVs, specTree_shape c re v _ v' a1 h1, specKVs_shape c re rest path rest' a2 h2]
+      · simp at h
+  theorem specArr_shape (c : Cfg) (re : Oracle) : ∀ (xs : List JTree) (i : Nat) (path : List Bytes)
+      (xs' : List JTree) (ap : List (Nat × MaskCfg)),
+      specArr c re path i xs = some (xs', ap) → sameShapeList xs xs' = true
+    | [], _, _, xs', ap, h => by simp [specArr] at h; obtain ⟨rfl, _⟩ := h; simp [sameShapeList]
+    | x :: rest, i, path, xs', ap, h => by
+      simp only [specArr] at h
+      split at h
+      · rename_i x' a1 rest' a2 h1 h2
+        simp at h; obtain ⟨rfl, _⟩ := h
+        simp [sameShapeList, specTree_shape c re x _ x' a1 h1, specArr_shape c re rest (i + 1) path rest' a2 h2]
+      · simp at h
+end
+
+
+/-! ### no event content can make the (repaired) action panic -/
+
+/-- the computation does not end in a Go panic (it may only miss an oracle row) -/
+def NoPanic {α} (x : M α) : Prop := ∀ p, x ≠ .error (.panic p)
+
+theorem NoPanic.pure {α} (a : α) : NoPanic (pure a : M α) := by intro p h; cases h
+
+theorem NoPanic.ok {α} (a : α) : NoPanic (.ok a : M α) := by intro p h; cases h
+
+theorem NoPanic.bind {α β} {x : M α} {f : α → M β} (hx : NoPanic x) (hf : ∀ a, NoPanic (f a)) :
+    NoPanic (x >>= f) := by
+  intro p h
+  cases x with
+  | error e =>
+    have h' : (Except.error e : M β) = .error (.panic p) := h
+    cases h'
+    exact hx p rfl
+  | ok a => exact hf a p h
+
+theorem processMask_noPanic (c : Cfg) (re : Oracle) (hok : LoopOk re 0 c.masks) (v : Bytes)
+    (fm : Option FMNode) (st : St) : NoPanic (processMask fixedImpl c re v fm st) := by
+  rw [processMask_eq c re v fm st hok]
+  intro p h
+  split at h <;> cases h
+
+mutual
+  theorem trav_noPanic (c : Cfg) (re : Oracle) (hok : LoopOk re 0 c.masks) :
+      ∀ (t : JTree) (fm : Option FMNode) (st : St), NoPanic (trav fixedImpl c re t fm st)
+    | .str s, fm, st => by
+      simp only [trav]
+      exact (processMask_noPanic c re hok s fm st).bind (fun _ => NoPanic.pure _)
+    | .num s, fm, st => by
+      simp only [trav]
+      exact (processMask_noPanic c re hok s fm st).bind (fun _ => NoPanic.pure _)
+    | .obj kvs, fm, st => by
+      simp only [trav]
+      exact (travKVs_noPanic c re hok kvs fm st).bind (fun _ => NoPanic.pure _)
+    | .arr xs, fm, st => by
+      simp only [trav]
+      exact (travArr_noPanic c re hok xs 0 fm st).bind (fun _ => NoPanic.pure _)
+    | .null, _, _ => by intro p h; simp [trav, pure, Except.pure] at h
+    | .bool _, _, _ => by intro p h; simp [trav, pure, Except.pure] at h
+  theorem travKVs_noPanic (c : Cfg) (re : Oracle) (hok : LoopOk re 0 c.masks) :
+      ∀ (kvs : List (Bytes × JTree)) (fm : Option FMNode) (st : St), NoPanic (travKVs fixedImpl c re kvs fm st)
+    | [], _, _ => by simp only [travKVs]; exact NoPanic.pure _
+    | (k, v) :: rest, fm, st => by
+      simp only [travKVs]
+      split
+      · exact (travKVs_noPanic c re hok rest fm st).bind (fun _ => NoPanic.pure _)
+      · exact (trav_noPanic c re hok v _ st).bind (fun rv =>
+          (travKVs_noPanic c re hok rest fm rv.2).bind (fun _ => NoPanic.pure _))
+  theorem travArr_noPanic (c : Cfg) (re : Oracle) (hok : LoopOk re 0 c.masks) :
+      ∀ (xs : List JTree) (i : Nat) (fm : Option FMNode) (st : St), NoPanic (travArr fixedImpl c re xs i fm st)
+    | [], _, _, _ => by simp only [travArr]; exact NoPanic.pure _
+    | x :: rest, i, fm, st => by
+      simp only [travArr]
+      exact (trav_noPanic c re hok x _ st).bind (fun rv =>
+        (travArr_noPanic c re hok rest (i + 1) fm rv.2).bind (fun _ => NoPanic.pure _))
+end
+
+theorem doNode_noPanic (c : Cfg) (re : Oracle) (hok : LoopOk re 0 c.masks) (root v : JTree)
+    (fm : Option FMNode) (wr : JTree → JTree → JTree) (st : St) :
+    NoPanic (doNode fixedImpl c re root v fm wr st) := by
+  unfold doNode
+  split
+  · exact (processMask_noPanic c re hok _ fm _).bind (fun _ => NoPanic.pure _)
+  · exact (processMask_noPanic c re hok _ fm _).bind (fun _ => NoPanic.pure _)
+  · exact (trav_noPanic c re hok _ fm _).bind (fun _ => NoPanic.pure _)
+
+theorem rootLoop_noPanic (c : Cfg) (re : Oracle) (hok : LoopOk re 0 c.masks) (fm : Option FMNode) :
+    ∀ (n i : Nat) (root : JTree) (st : St), NoPanic (rootLoop fixedImpl c re fm n i root st)
+  | 0, _, _, _ => by simp only [rootLoop]; exact NoPanic.pure _
+  | n + 1, i, root, st => by
+    simp only [rootLoop]
+    split
+    · split
+      · exact NoPanic.pure _
+      · split
+        · exact rootLoop_noPanic c re hok fm n (i + 1) _ st
+        · exact (doNode_noPanic c re hok _ _ _ _ _).bind (fun r => rootLoop_noPanic c re hok fm n (i + 1) r.1 r.2)
+    · exact NoPanic.pure _
+
+theorem pathLoop_noPanic (c : Cfg) (re : Oracle) (hok : LoopOk re 0 c.masks) :
+    ∀ (ps : List (List Bytes)) (root : JTree) (st : St), NoPanic (pathLoop fixedImpl c re ps root st)
+  | [], _, _ => by simp only [pathLoop]; exact NoPanic.pure _
+  | p :: ps, root, st => by
+    simp only [pathLoop]
+    split
+    · exact pathLoop_noPanic c re hok ps root st
+    · exact (doNode_noPanic c re hok _ _ _ _ _).bind (fun r => pathLoop_noPanic c re hok ps r.1 r.2)
+
+/-- `Do` of the repaired plugin never panics, whatever the event and whatever well-shaped
+    answers the regexp library gives -/
+theorem doEvent_noPanic (c : Cfg) (re : Oracle) (hok : LoopOk re 0 c.masks) (root : JTree) :
+    NoPanic (doEvent fixedImpl c re root) := by
+  unfold doEvent
+  refine NoPanic.bind ?_ (fun _ => NoPanic.pure _)
+  unfold traverseRoot
+  split
+  · exact pathLoop_noPanic c re hok _ _ _
+  · split
+    · exact rootLoop_noPanic c re hok _ _ _ _ _
+    · exact doNode_noPanic c re hok _ _ _ _ _
+
 end FileD.MaskLemmas
